@@ -231,6 +231,7 @@ type Env struct {
 	moduleAddr sdk.AccAddress
 	lastPanic  string
 	dead       bool
+	evDigest   []byte
 	lastErr    string
 }
 
